@@ -34,6 +34,17 @@ Fixpoint lookup (s : string) (l : list (string * string)) : option string :=
 Definition stateless_types : list string :=
   ["*collections.ConcatKeyed"; "*collections.SizeCollection"; "collection.Keyed"].
 
+(* what a view may hold: references to the collections it reads and the id of the variable it stands for.
+   verif-facts lists the struct fields of SizeCollection, ConcatKeyed, ConcatCollection and
+   NamedCollectionNames as ("Type.field", Go type); anything else (a counter, a memo, a map) is state. *)
+Definition view_reference_types : list string :=
+  ["[]*NamedCollection"; "*NamedCollection"; "[]collection.Keyed"; "[]collection.Collection"; "variables.RuleVariable"].
+Definition views_ok (fields : list (string * string)) : bool :=
+  forallb (fun ft => mem (snd ft) view_reference_types) fields
+  && existsb (fun ft => String.prefix "SizeCollection." (fst ft)) fields
+  && existsb (fun ft => String.prefix "ConcatKeyed." (fst ft)) fields
+  && existsb (fun ft => String.prefix "NamedCollectionNames." (fst ft)) fields.
+
 (* the containers newTransaction creates once and Close / Eval empty *)
 Definition containers : list string :=
   ["requestBodyBuffer"; "responseBodyBuffer"; "variables"; "transformationCache"].
